@@ -9,5 +9,5 @@ CONSTANTS
   SecondCheck = TRUE
   Filter = TRUE
 CONSTRAINT Hwm
-INVARIANTS AtMostOnce NoStaleInvoke OnlyAllocated QueueBound HandlersConsistent FilterConsistent NoLoss
+INVARIANTS NotDone AtMostOnce NoStaleInvoke OnlyAllocated QueueBound HandlersConsistent FilterConsistent NoLoss
 POSTCONDITION Accepted
